@@ -17,6 +17,9 @@
 //!        the stage outputs themselves, for every family with k <= tie and for every random program:
 //!        modelrun recomputes G from them (ties the Rust count), reads them with the Coq readers, computes
 //!        the Coq node counts size_* and evaluates the proved size bounds and the ratio bound on them.
+//! A stage output whose Debug text is more than 100 x the Debug text of the parsed program is not built
+//! (the run of that family stops there):  (case j (family F (..)) (OVER <k> <stage> 100))  - modelrun
+//! answers VIOL class=exponential-growth:<stage>.
 //! A family program that the real parser/checker rejects, or a stage that panics, gives
 //!  (case j (family …) (ERR <k> <stage> "msg"))  resp. (case j (prog …) (ERR <stage> "msg")).
 use crate::gen_families::{FAMILIES, family_text};
@@ -60,23 +63,44 @@ pub struct Stages {
     pub code: [String; 3],    // x86 a64 rv: number or `panic`
 }
 
+/// `sexp::dbg(v)`, given up (None) as soon as the Debug text exceeds `cap` bytes: a stage that explodes
+/// must not take the machine with it
+struct Lim { s: String, cap: usize }
+impl std::fmt::Write for Lim {
+    fn write_str(&mut self, x: &str) -> std::fmt::Result {
+        if self.s.len() + x.len() > self.cap { return Err(std::fmt::Error); }
+        self.s.push_str(x);
+        Ok(())
+    }
+}
+fn dbg_capped<T: std::fmt::Debug>(v: &T, cap: usize) -> Option<String> {
+    use std::fmt::Write as _;
+    let mut l = Lim { s: String::new(), cap };
+    match write!(l, "{:?}", v) { Ok(()) => Some(sexp::debug_to_sexp(&l.s)), Err(_) => None }
+}
+/// size cap of every stage output: CAP_FACTOR x the Debug text of the parsed program
+pub const CAP_FACTOR: usize = 100;
+
 fn guard<T, F: FnOnce() -> T>(stage: &str, f: F) -> Result<T, (String, String)> {
     catch_unwind(AssertUnwindSafe(f)).map_err(|e| (stage.to_string(), pmsg(e)))
 }
 
 pub fn run_stages(src: &str) -> Result<Stages, (String, String)> {
     let parsed = guard("parsed", || fun::parser::parse_module(src).map_err(|e| e.to_string()))?.map_err(|e| ("parsed".to_string(), e))?;
-    let g_parsed = measure(&sexp::dbg(&parsed));
+    let t_parsed = format!("{:?}", parsed);
+    let cap = CAP_FACTOR * t_parsed.len();
+    let over = |stage: &str| (stage.to_string(), "OVER".to_string());
+    let g_parsed = measure(&sexp::debug_to_sexp(&t_parsed));
     let checked = guard("checked", || parsed.check().map_err(|e| e.to_string()))?.map_err(|e| ("checked".to_string(), e))?;
-    let t_checked = sexp::dbg(&checked);
+    let t_checked = dbg_capped(&checked, cap).ok_or_else(|| over("checked"))?;
     let core = guard("core", || fun2core::program::compile_prog(checked))?;
-    let t_core = sexp::dbg(&core);
+    let t_core = dbg_capped(&core, cap).ok_or_else(|| over("core"))?;
     let focused = guard("focused", || core.focus())?;
-    let t_focused = sexp::dbg(&focused);
+    let t_focused = dbg_capped(&focused, cap).ok_or_else(|| over("focused"))?;
     let shrunk = guard("shrunk", || core2axcut::program::shrink_prog(focused))?;
-    let t_shrunk = sexp::dbg(&shrunk);
+    let t_shrunk = dbg_capped(&shrunk, cap).ok_or_else(|| over("shrunk"))?;
     let lin = guard("linearized", || { let mut p = shrunk; p.linearize(); p })?;
-    let t_lin = sexp::dbg(&lin);
+    let t_lin = dbg_capped(&lin, cap).ok_or_else(|| over("linearized"))?;
     let num = |r: Result<usize, (String, String)>| match r { Ok(n) => n.to_string(), Err(_) => "panic".to_string() };
     let p2 = lin.clone();
     let x86 = num(guard("x86", move || axcut2x86_64::into_routine::into_x86_64_routine(compile::<axcut2x86_64::Backend, _, _, _>(p2)).instructions.len()));
@@ -125,6 +149,7 @@ pub fn cmd_sizes(seed: u64, n: usize, out: &mut dyn Write, extra: &[String]) {
                     rows += &format!("({k} {} {} {} {} {} {} {})", st.g[2], st.g[3], st.g[4], st.g[5], st.code[0], st.code[1], st.code[2]);
                     if k <= tie { ties.push((k, st)); }
                 }
+                Err((stage, m)) if m == "OVER" => { err = Some(format!("(OVER {k} {stage} {CAP_FACTOR})")); break; }
                 Err((stage, m)) => { err = Some(format!("(ERR {k} {stage} {})", sexp::quote(&m))); break; }
             }
         }
